@@ -835,3 +835,85 @@ func VHarness_C10_TanLargeRecord() {
 	}
 	vReach("done")
 }
+
+// C09 (Tan): a replica whose log was compacted and whose data is then wiped -
+// by RemoveNodeData, or replaced by ImportSnapshot with a snapshot at or below
+// the compaction point - starts a new logical log; everything saved afterwards
+// must come back, also at indexes the old log had already compacted, before
+// and after reopen.  (Regular mode; multiplexed mode: finding F6.)
+//vcheck: reach=wiped-by-remove,wiped-by-import,below-old-compaction,reopened,done workers=16 steps=3000000
+func VHarness_C09_TanCompactWipeReuse() {
+	env := vNewTanEnv()
+	l, err := env.open()
+	vAssert(err == nil, "open-ok")
+	vAssume(!l.collection.multiplexedLog())
+	ms := []*vTanNode{{shard: 1, replica: 1}, {shard: 1, replica: 2}}
+	uds := vTanFirstSave(ms)
+	vAssert(l.SaveRaftState(uds, 1) == nil, "first-save-ok")
+	for i, m := range ms {
+		m.apply(uds[i])
+	}
+	a := ms[0]
+	// grow the log of replica a to at least 4 entries, then compact it
+	for a.last() < 4 {
+		es, t := vTanEntries(a.last()+1, 2, a.maxTerm)
+		a.maxTerm = t
+		u := pb.Update{ShardID: a.shard, ReplicaID: a.replica, EntriesToSave: es, State: pb.State{Term: t, Vote: a.state.Vote, Commit: a.state.Commit}}
+		vAssert(l.SaveRaftState([]pb.Update{u}, 1) == nil, "grow-ok")
+		a.apply(u)
+	}
+	k := 2 + uint64(vChoose("removeTo", int(a.last()-2)))
+	vAssert(l.RemoveEntriesTo(a.shard, a.replica, k) == nil, "remove-entries-ok")
+	a.compactedTo = k
+	if vBool("bgDelete") {
+		vTanBgDelete(l)
+	}
+	oldK := k
+	var next uint64
+	if vBool("import") {
+		s := 1 + uint64(vChoose("importIndex", int(oldK)+1)) // at or below the old compaction point, or right above it
+		ss := pb.Snapshot{ShardID: a.shard, Index: s, Term: a.maxTerm + 1, Filepath: "/x", FileSize: 1}
+		ss.Membership.Addresses = map[uint64]string{1: "a1"}
+		vAssert(l.ImportSnapshot(ss, a.replica) == nil, "import-ok")
+		*a = vTanNode{shard: a.shard, replica: a.replica, ss: ss, state: pb.State{Term: ss.Term, Commit: ss.Index}, hasState: true, maxTerm: ss.Term}
+		a.first = s + 1
+		next = s + 1
+		vReach("wiped-by-import")
+	} else {
+		vAssert(l.RemoveNodeData(a.shard, a.replica) == nil, "remove-node-ok")
+		*a = vTanNode{shard: a.shard, replica: a.replica, maxTerm: a.maxTerm}
+		a.first = 1
+		next = 1
+		vReach("wiped-by-remove")
+	}
+	if next <= oldK {
+		vReach("below-old-compaction")
+	}
+	// the new life of the replica: two saves
+	for i := 0; i < 2; i++ {
+		es, t := vTanEntries(next, 1+vChoose("n", 2), a.maxTerm+1)
+		a.maxTerm = t
+		u := pb.Update{ShardID: a.shard, ReplicaID: a.replica, EntriesToSave: es, State: pb.State{Term: t, Commit: a.state.Commit}}
+		vAssert(l.SaveRaftState([]pb.Update{u}, 1) == nil, "save-after-wipe-ok")
+		a.apply(u)
+		next = a.last() + 1
+	}
+	for _, m := range ms {
+		vTanCheck(l, m, "")
+	}
+	vAssert(l.Close() == nil, "close-ok")
+	l, err = env.open()
+	vAssert(err == nil, "reopen-ok")
+	vReach("reopened")
+	for _, m := range ms {
+		vTanCheck(l, m, "reopened-")
+	}
+	// a small compaction of the new log must not take live entries with it
+	if a.last() > a.first+1 {
+		vAssert(l.RemoveEntriesTo(a.shard, a.replica, a.first) == nil, "second-compaction-ok")
+		a.compactedTo = a.first
+		vTanBgDelete(l)
+		vTanCheck(l, a, "after-second-compaction-")
+	}
+	vReach("done")
+}
